@@ -237,6 +237,42 @@ def rule_table(model):
                    'obtained by filtering the module table (iteration '
                    f'source is `{src}`): their order depends on how the '
                    'tag was written', node=asg[0], ctx=init)
+    # every (re-)assignment keeps the table's own functions: elements are
+    # projections of the table entries, never new callables wrapping them
+    # (Var.render recognises html_quote by the function's name, and the
+    # taint summaries are those of the table functions)
+    for a in asg:
+        src_a = _iteration_source(a.value)
+        if a is not asg[0]:
+            r3.instance(init.where, a, f'iteration source: {src_a}')
+            if src_a not in ('modifiers', 'self.modifiers'):
+                r3.finding(init.where, a, 'the applied modifiers are '
+                           're-assigned from something else than the table '
+                           f'(`{src_a}`)', node=a, ctx=init)
+        elts = []
+        for x in ast.walk(a.value):
+            if isinstance(x, (ast.ListComp, ast.GeneratorExp, ast.SetComp)):
+                elts.append(x.elt)
+            if isinstance(x, ast.Call) and isinstance(x.func, ast.Name) and \
+                    x.func.id == 'map' and x.args and isinstance(
+                        x.args[0], ast.Lambda):
+                elts.append(x.args[0].body)
+        for e in elts:
+            wraps = [y for y in ast.walk(e) if isinstance(y, ast.Lambda) or (
+                isinstance(y, ast.Call) and isinstance(y.func, ast.Name)
+                and y.func.id in ('partial', 'wraps'))] + [
+                y for y in ast.walk(e) if isinstance(y, ast.Call) and
+                isinstance(y.func, ast.Attribute) and
+                y.func.attr == 'partial']
+            if wraps:
+                r3.finding(init.where, a, 'a modifier is replaced by a new '
+                           f'callable wrapping it (`{norm(wraps[0])[:60]}`):'
+                           ' it no longer carries the table function\'s '
+                           'name, so the rule that leaves tainted values '
+                           'to the final quoting does not recognise '
+                           'html_quote any more (the value is quoted into '
+                           'a plain string early and later modifiers can '
+                           'undo it)', node=a, ctx=init)
     # and render iterates self.modifiers directly
     ren = model.func('DT_Var', 'Var.render')
     loops = [n for n in own_nodes(ren.node) if isinstance(n, ast.For)
